@@ -57,8 +57,10 @@ def edge(src, tgt, w, d=None, s=None):
     return dict(src=src, tgt=tgt, w=w, d=d, s=s)
 
 
-def model(ops, nodes, edges=(), circuits=None):
+def model(ops, nodes, edges=(), circuits=None, edge_ops=()):
     m = dict(ops={o["name"]: o for o in ops}, nodes=nodes, edges=list(edges))
+    if edge_ops:
+        m["edge_ops"] = {o["name"]: o for o in edge_ops}
     if circuits:
         m["circuits"] = circuits
     return m
@@ -262,4 +264,38 @@ def delay_families(kind="discrete"):
         out.append(("G3-rounding-orders", dict(),
                     model([pop, tgt], dict(two, t1=dict(ops=["tg"]), t2=dict(ops=["tg"], over={"tg/tau": 2.0})),
                           [edge("p1/op/r", "t1/tg/u", 1.0, 0.5, 0.3), edge("p2/op/r", "t2/tg/u", 1.0, 0.3, 0.1)])))
+    return out
+
+
+def c04_extra():
+    """Vectorisation-specific families: tiny weights (SI units), per-node parameters, two node types with cross fan-in."""
+    out = []
+    pop = op_li("op", x="r", ins=("r_in",), tau=2.0, x0=0.4, in_defaults={"r_in": 0.0})
+    nn_ = 11
+    nodes_ = {f"n{i}": dict(ops=["op"], over={"op/tau": 1.0 + 0.25 * i}) for i in range(nn_)}
+    es_ = [edge(f"n{(i + 1) % nn_}/op/r", f"n{i}/op/r_in", (1.0 + 0.5 * i) * 1e-9) for i in range(nn_)]
+    out.append(("V1-tiny-weights-11", dict(tiny=True), model([pop], nodes_, es_)))
+    es2 = [edge(f"n{(i + 1) % nn_}/op/r", f"n{i}/op/r_in", 2.0) for i in range(nn_)]
+    out.append(("V2-equal-weights-11", dict(), model([pop], nodes_, es2)))
+    es3 = [edge(f"n{(i + 1) % nn_}/op/r", f"n{i}/op/r_in", 1.0) for i in range(nn_)]
+    out.append(("V3-unit-weights-11", dict(), model([pop], nodes_, es3)))
+    a = op_li("ea", x="r", ins=("r_in",), tau=2.0, x0=0.4, in_defaults={"r_in": 0.0})
+    b = op_li("ib", x="v", ins=("u", "w"), tau=1.0, x0=-0.2, in_defaults={"u": 0.0, "w": 0.0})
+    nodes4 = {"e0": dict(ops=["ea"]), "e1": dict(ops=["ea"], over={"ea/tau": 3.0}), "e2": dict(ops=["ea"], over={"ea/tau": 0.7}),
+              "i0": dict(ops=["ib"]), "i1": dict(ops=["ib"], over={"ib/tau": 0.5})}
+    es4 = [edge("e0/ea/r", "i0/ib/u", 1.0), edge("e1/ea/r", "i0/ib/u", 0.5), edge("e2/ea/r", "i1/ib/u", -1.5), edge("e0/ea/r", "i1/ib/w", 2.0),
+           edge("i0/ib/v", "e0/ea/r_in", -1.0), edge("i1/ib/v", "e1/ea/r_in", -0.5), edge("i0/ib/v", "e2/ea/r_in", 0.25),
+           edge("e1/ea/r", "e1/ea/r_in", 0.3), edge("i1/ib/v", "i0/ib/w", 0.8)]
+    out.append(("V4-two-types-cross-fanin-selfconn", dict(two_types=True), model([a, b], nodes4, es4)))
+    # edge templates (algebraic edge operators), one template used by several edge groups
+    eop = dict(name="eop", eqs=[["s_out", "alg", ["*", V("gain"), ["call", "tanh", V("pre")]]]],
+               vars={"s_out": ["output", 0.0], "pre": ["input", 0.0], "gain": ["const", 1.7]})
+    es5 = []
+    for e_ in es4:
+        e5 = dict(e_)
+        e5["tpl"] = "eop"
+        es5.append(e5)
+    out.append(("V5-edge-template-three-groups", dict(edge_template=True), model([a, b], nodes4, es5, edge_ops=[eop])))
+    es6 = [dict(e_, tpl="eop") if i % 2 == 0 else e_ for i, e_ in enumerate(es4)]
+    out.append(("V6-edge-template-mixed-with-plain", dict(edge_template=True), model([a, b], nodes4, es6, edge_ops=[eop])))
     return out
